@@ -33,9 +33,14 @@ def gen(rng, n, tier="quick"):
             fault = {"target": L.file_of(tk), "op_index": rng.randint(0, 5), "k": rng.choice([0, 1, 7, 40, 10 ** 6])}
         for req, got, tags in _run_scenario(scn, fault):
             cases.append({"fam": NAME, "fn": "conform", "args": [req], "impl": got, "tags": tags, "scenario": scn, "fault": fault})
-    for i in range(max(4, n // 10)):
+    for i in range(max(8, n // 5)):
         shape = {"truth": rng.choice(L.KINDS), "files": {k: rng.choice([0, 1, 1, 2]) for k in L.KINDS},
                  "names": {k: rng.choice([0, 1, 1, 2]) for k in L.KINDS}, "exists": rng.random() < 0.8}
+        if rng.random() < 0.35:
+            # few files in all (the acceptance rule counts files, not options): 0, 1 or 2 over the three kinds
+            shape["files"] = {k: 0 for k in L.KINDS}
+            for _ in range(rng.choice([0, 1, 1, 1, 2])):
+                shape["files"][rng.choice(L.KINDS)] += 1
         cases.append({"fam": NAME, "fn": "cli_sync", "args": [shape], "tags": ["cli-shape"]})
     return cases
 
